@@ -39,6 +39,20 @@ def gen(depth, heads=HEADS, with_opts=True):
     return out
 
 
+FCN_HEADS = ['fcn', 'fcnskip', 'dwout']
+
+
+def gen_fcn(depth=1):
+    """fully-convolutional programs: the output is a conv, a sum of convs, or conv -> depthwise + BN (layers in the output-connected
+    group have no output quantizer, so their consumers see an un-quantized input)"""
+    out = []
+    for n in range(0, depth + 1):
+        for combo in itertools.product(STAGES[:5], repeat=n):
+            for h in FCN_HEADS:
+                out.append({'cin': 3, 'size': 6, 'stages': [dict(s) for s in combo], 'head': h})
+    return out
+
+
 def precision_tuples():
     """every non-empty ordered selection without repetition from {2,4,8} (15)"""
     out = []
